@@ -209,6 +209,7 @@ class Gen:
                     add("scan", 2.4)
                 if self.flags["ns_scan"] and cx.depth + 1 < self.max_depth:
                     add("nsscan", 1.6)
+                    add("leafscan", 0.7)
                 add("vmap", 1.6)
             if self.flags["sample"] and cx.sample_ok:
                 add("sample", 1.6)
@@ -217,7 +218,7 @@ class Gen:
             w = np.asarray(w) / np.sum(w)
             k = kinds[int(self.rng.choice(len(kinds), p=w))]
             st = getattr(self, "st_" + k)(cx)
-            if k in ("save", "tag", "leafcall"):
+            if k in ("save", "tag", "leafcall", "leafscan"):
                 wrote = True
             out.append(st)
             if self.budget <= 0 and (wrote or not force_write):
@@ -319,7 +320,18 @@ class Gen:
         free = [s for s in SIZES if s not in cx.sizes]
         return self.pick(free)
 
-    def st_scan(self, cx):
+    def st_leafscan(self, cx):
+        """namespace(lambda: lax.scan(body-with-leaf-mode-save, ...), "L<k>")()"""
+        self.nfresh += 1
+        ns = [f"L{self.nfresh}"]
+        inner = cx.child(depth=cx.depth + 1, ns_dyn=cx.ns_dyn + ns)
+        sc = self.st_scan(inner, leaf_only=True)
+        e, kind, deps, _ = self.expr(inner)
+        v = self.fresh()
+        cx.vars[v] = _Var(kind, False, deps)
+        return {"k": "call", "ns": ns, "params": [], "args": [], "body": [sc], "ret": e, "v": v}
+
+    def st_scan(self, cx, leaf_only=False):
         sid = self.new_id()
         n = self.size(cx)
         rev = self.chance(0.2)
@@ -347,11 +359,16 @@ class Gen:
             carry.append({"p": p, "init": e, "kind": kind})
             inner.vars[p] = _Var(kind, False, deps | {sid})
         ns_body = []
-        if self.chance(0.2):
-            inner.in_scan = True
-            ns_body = [self.ns_name(inner)]
-            inner.ns_dyn = inner.ns_dyn + ns_body
-        body = self.block(inner, int(self.rng.integers(1, 4)), force_write=True)
+        if leaf_only:
+            body = [self.st_let(inner)] if self.chance(0.4) else []
+            nvals = 1 + int(cx.multi_ok and self.chance(0.6))
+            body.append({"k": "leaf", "es": [self.expr(inner, bare_int_ok=True)[0] for _ in range(nvals)]})
+        else:
+            if self.chance(0.2):
+                inner.in_scan = True
+                ns_body = [self.ns_name(inner)]
+                inner.ns_dyn = inner.ns_dyn + ns_body
+            body = self.block(inner, int(self.rng.integers(1, 4)), force_write=True)
         cout = []
         cdeps = set()
         for c in carry:
@@ -862,6 +879,13 @@ def fixed_programs():
                   _add(_v("a1"), _v("i")), ["c1"], "y1"),
         ], _v("c1"), "r1"),
         _sv(q=_v("r1")),
+    ], ["r1"])
+    # leaf-mode save in a scan body, the namespace around the scan
+    prog("ns(scan(leaf))", [
+        _call(["L1"], [
+            _scan(1, 3, [("c", x, _v("i"))], "i", "iota_f",
+                  [{"k": "leaf", "es": [_v("c"), _add(v, _v("i"))]}], _v("c"), ["c1"], "y1"),
+        ], _v("c1"), "r1"),
     ], ["r1"])
     # namespace inside a scan body, nested namespaces, namespace on the body function
     prog("scan(ns)", [
